@@ -355,8 +355,42 @@ def translate(obj, args, env=None, calls=None, name=None):
     return tr.function(fndef, args)
 
 
+CROSS = []      # one record per solve(): z3 verdict, cvc5 verdict (binary on PATH, same SMT-LIB2 text), seconds
+
+
+def _cvc5(smt2, limit_ms):
+    """Second opinion: the same assertion set, printed by z3 as SMT-LIB2, decided by the cvc5 binary."""
+    import os, shutil, subprocess, tempfile, time
+    exe = shutil.which('cvc5')
+    if exe is None or os.environ.get('VERIF_CVC5', '1') == '0':
+        return 'not_run', 0.0
+    d = os.environ.get('VERIF_SCRATCH') or os.path.join(os.path.dirname(os.path.dirname(os.path.abspath(__file__))), '.scratch')
+    os.makedirs(d, exist_ok=True)
+    fd, path = tempfile.mkstemp(suffix='.smt2', dir=d)
+    try:
+        with os.fdopen(fd, 'w') as h:
+            h.write('(set-logic ALL)\n' + smt2)
+        t = time.perf_counter()
+        try:
+            p = subprocess.run([exe, '--tlimit=%d' % limit_ms, path], capture_output=True, text=True, timeout=limit_ms / 1000 + 10)
+            out = (p.stdout + p.stderr).strip().splitlines()
+        except subprocess.TimeoutExpired:
+            out = ['timeout']
+        dt = time.perf_counter() - t
+        if any('(error' in l or 'rror' in l for l in out):
+            return 'error', dt        # inconclusive, never read as agreement
+        first = out[0].strip() if out else 'no_output'
+        return (first if first in ('sat', 'unsat', 'unknown') else 'unknown'), dt
+    finally:
+        try:
+            os.remove(path)
+        except OSError:
+            pass
+
+
 def solve(constraints, timeout_ms=60000, seed=0):
-    """returns ('unsat'|'sat'|'unknown', model-dict, seconds)"""
+    """returns ('unsat'|'sat'|'unknown', model-dict, seconds). Every query is also given to cvc5 (20 s); a sat/unsat
+    disagreement between the two solvers turns the answer into 'unknown' (inconclusive)."""
     import time
     s = z3.Solver()
     s.set('timeout', timeout_ms)
@@ -378,4 +412,21 @@ def solve(constraints, timeout_ms=60000, seed=0):
                     model[d.name()] = z3.is_true(v) if z3.is_bool(v) else str(v)
                 except Exception:
                     model[d.name()] = str(v)
-    return str(r), model, dt
+    r = str(r)
+    try:
+        r2, dt2 = _cvc5(s.to_smt2(), 20000)
+    except Exception as e:      # the cross-check must never break the primary verdict path
+        r2, dt2 = 'error', 0.0
+    CROSS.append(dict(z3=r, cvc5=r2, z3_s=round(dt, 3), cvc5_s=round(dt2, 3)))
+    if {r, r2} == {'sat', 'unsat'}:
+        return 'unknown', model, dt
+    return r, model, dt
+
+
+def cross_summary():
+    """e.g. 'cvc5 agrees on 3/3 (0 unknown, 0 disagree)'"""
+    n = len(CROSS)
+    agree = sum(1 for c in CROSS if c['z3'] == c['cvc5'])
+    dis = sum(1 for c in CROSS if {c['z3'], c['cvc5']} == {'sat', 'unsat'})
+    return 'cvc5 cross-check: agrees on %d/%d queries, %d without cvc5 answer, %d disagree (%.1fs)' % (
+        agree, n, n - agree - dis, dis, sum(c['cvc5_s'] for c in CROSS))
